@@ -9,12 +9,39 @@ Tie:    real py4hw netlists (random DAGs / cyclic graphs / register-broken loops
         wire value; the dumped design must satisfy the theorems' hypotheses (orderedb, single driver) and every row read
         from the real simulator must satisfy Spec.C04.settledb.
 Oracle: denotational value of every wire by recursion on the DAG (own semantics of the blocks) vs Wire.get()."""
-import itertools, json, random, time
+import ast, itertools, json, os, random, time, types
 import common, netlist
 from common import quiet
 from props import c04_net as N
 
-LIMIT = 1000
+LIMIT = 1000                     # the constant of the pinned commit; the limit actually used is probed from the source
+
+
+def probe_limit():
+    """the pass limit of Simulator.topologicalSort as the code computes it: (expression text, n -> number of passes allowed).
+    Read from the `if (loopcount > <expr>): raise` test in /repo's current simulation.py, evaluated with a stub self whose
+    propagatables list has n entries (so both the constant 1000 and a limit derived from the number of leaves are followed)."""
+    src = open(os.path.join(common.REPO, 'py4hw', 'simulation.py'), encoding='utf-8').read()
+    for cls in [c for c in ast.walk(ast.parse(src)) if isinstance(c, ast.ClassDef) and c.name == 'Simulator']:
+        for fn in [f for f in cls.body if isinstance(f, ast.FunctionDef) and f.name == 'topologicalSort']:
+            for node in ast.walk(fn):
+                if (isinstance(node, ast.If) and isinstance(node.test, ast.Compare) and isinstance(node.test.left, ast.Name)
+                        and node.test.left.id == 'loopcount' and len(node.test.ops) == 1 and isinstance(node.test.ops[0], (ast.Gt, ast.GtE))
+                        and any(isinstance(b, ast.Raise) for b in node.body)):
+                    expr = node.test.comparators[0]; strict = isinstance(node.test.ops[0], ast.Gt)
+                    code = compile(ast.Expression(expr), '<pass limit>', 'eval')
+                    def f(n, code=code, strict=strict):
+                        v = eval(code, {'__builtins__': {}, 'max': max, 'min': min, 'len': len, 'int': int},
+                                 {'self': types.SimpleNamespace(propagatables=[None] * n)})
+                        return int(v) if strict else int(v) - 1
+                    f(3)
+                    return ast.unparse(node.test), f
+    raise LookupError('no `if loopcount > <limit>: raise` test found in Simulator.topologicalSort')
+
+
+LIMIT_FN = [None]
+def limit_of(n):
+    return LIMIT_FN[0](n) if LIMIT_FN[0] else LIMIT
 SORT_PRELUDE = 'From Coq Require Import List Arith.\nImport ListNotations.\nFrom V Require Import Model.Sort.\nOpen Scope nat_scope.\n'
 KERNEL_PRELUDE = netlist.PRELUDE + 'From V Require Import Spec.C04.\n'
 
@@ -52,7 +79,7 @@ def exercise(spec, rng=None, n_steps=0, want_dump=False, fixed_steps=None):
             elif impl[2] == 'loop' and not (0 <= impl[3] < n and impl[3] in tbl_spec[impl[3]]):
                 res['problems'].append(('exception', 'the loop error names a block that does not drive its own input', {'exception': impl[1], 'leaf': impl[3], 'succ': tbl_spec}))
             elif truth == 'dag':
-                if impl[2] == 'limit' and n > LIMIT: res['notes'].append('passlimit')
+                if impl[2] == 'limit' and n > LIMIT and limit_of(n) < n: res['notes'].append('passlimit')   # C04_pass_count_chain: fewer passes than leaves
                 else: res['problems'].append(('refused', 'an acyclic netlist was refused', {'exception': impl[1]}))
             return res
         if truth == 'cycle2':
@@ -126,12 +153,13 @@ def nat_tbl(tbl):
 
 
 def model_sort(tag, tbls):
-    """Model/Sort.v topologicalSort on each table: ('sorted', [leaf indices]) | ('loop', leaf) | ('limit', None)"""
+    """Model/Sort.v topologicalSort_with (the probed pass limit for that many leaves) on each table:
+    ('sorted', [leaf indices]) | ('loop', leaf) | ('limit', None)"""
     out = []
     for a in range(0, len(tbls), 1500):
         chunk = tbls[a:a + 1500]
         r = coq_eval('%s_%d' % (tag, a // 1500), SORT_PRELUDE,
-                            [('all', 'map (fun t => encode (topologicalSort t)) [' + ';\n '.join(nat_tbl(t) for t in chunk) + ']')], timeout=900)
+                     [('all', '[' + ';\n '.join('encode (topologicalSort_with %d %s)' % (limit_of(len(t)), nat_tbl(t)) for t in chunk) + ']')], timeout=900)
         for code, lst in r['all']:
             out.append(('sorted', lst) if code == 0 else ('loop', lst[0]) if code == 1 else ('limit', None))
     return out
@@ -182,7 +210,7 @@ class Sweep:
             break
         if 'passlimit' in r['notes']:
             if known(ctx, 'C04-passlimit'):
-                ctx.known_finding('C04-passlimit', 'an acyclic netlist of %d leaves instantiated sink-first is refused: the 1000-pass limit is hit (one pass per leaf is needed)' % r['n'])
+                ctx.known_finding('C04-passlimit', 'an acyclic netlist of %d leaves instantiated sink-first is refused: the pass limit (%d for this size) is hit, one pass per leaf is needed' % (r['n'], limit_of(r['n'])))
             else:
                 self.violated = True
                 ctx.violation({'what': 'an acyclic netlist was refused (pass limit)', 'clause': 'refused', 'netlist': 'N.chain(%d)' % r['n'], 'case': label})
@@ -282,7 +310,7 @@ def special_cases(ctx, sw, quick):
     sw.add('loop through a Reg', s3, rng, n_steps=5, want_dump=True)
     # the boundary of the pass limit on the real simulator: 1000 leaves sink-first need exactly 1000 passes, 1001 are refused
     sw.add('reversed chain of 1000 Buf', N.chain(LIMIT), rng, n_steps=1)
-    sw.add('reversed chain of 1001 Buf', N.chain(LIMIT + 1))
+    sw.add('reversed chain of 1001 Buf', N.chain(LIMIT + 1), rng, n_steps=1)
 
 
 def search(ctx, n):
@@ -307,6 +335,12 @@ def run(ctx):
     missing = ctx.regen(['Wire_put', 'Buf_propagate', 'Not_propagate', 'And2_propagate', 'Or2_propagate', 'Mux2_propagate', 'Constant_propagate',
                          'ConcatenateMSBF_propagate', 'ConcatenateLSBF_propagate', 'BitsLSBF_propagate', 'Reg_clock'])
     r = ctx.prove(['Properties/C04.v'])
+    probe_err = None
+    try:
+        text, LIMIT_FN[0] = probe_limit()
+        ctx.notes['pass_limit_probe'] = {'test': text, 'limit(10)': limit_of(10), 'limit(1001)': limit_of(1001), 'limit(5000)': limit_of(5000)}
+    except Exception as ex:
+        probe_err = 'cannot read the pass limit of Simulator.topologicalSort: %s' % ex; LIMIT_FN[0] = None
     sw = Sweep(ctx)
     ctx.log('proofs built: %s' % r['ok'])
     special_cases(ctx, sw, ctx.quick)
@@ -330,6 +364,7 @@ def run(ctx):
     broken = None
     if missing: broken = {'what': 'translator rejected %s' % missing, 'errors': {k: ctx.gen['errors'].get(k) for k in missing}}
     elif not r['ok']: broken = {'what': 'proof obligation no longer checks: %s in %s' % (r.get('lemma'), r.get('file')), 'coq_error': r.get('msg')}
+    elif probe_err: broken = {'what': probe_err}
     elif sw.tie_broken: broken = sw.tie_broken
     if broken:
         ctx.log('obligation / correspondence broken (%s): widening the impl-vs-spec search' % broken['what'])
@@ -343,6 +378,8 @@ def replay(rp):
     if not isinstance(spec, dict):
         print('replay: no netlist in this file (broken obligation):'); print(json.dumps(rp, indent=1)[:3000]); return 0
     common.quiet_import()
+    try: LIMIT_FN[0] = probe_limit()[1]
+    except Exception: pass
     rng = random.Random(1)
     r = exercise(spec, rng, n_steps=6, fixed_steps=rp.get('steps(pokes by input, clk)') or None)
     print('replay C04: leaf graph %s, truth=%s, getSimulator -> %s' % (r['sort_cases'][-1][0], r['truth'], r['sort_cases'][-1][1]))
